@@ -416,3 +416,133 @@ Proof.
   specialize (Hi (repeat 1 256) (165 :: 3 :: [0; 0; 0; 256] ++ repeat 1 256 ++ [0; 0; 0; 0]) []).
   cbn [kw_unwrap kw_wrap sym] in Hi. specialize (Hi ltac:(vm_compute; reflexivity)). vm_compute in Hi. discriminate Hi.
 Qed.
+
+(* ---- a cache invariant kept by every protect / unprotect call (histories, C19) ---- *)
+Lemma ckey_eqb_eq a b : ckey_eqb a b = true <-> a = b.
+Proof.
+  destruct a as [[a1 a2] a3], b as [[b1 b2] b3]. unfold ckey_eqb. rewrite !andb_true_iff, !beqb_eq, Z.eqb_eq.
+  split; [intros [[-> ->] ->]; reflexivity|intros H; injection H as -> -> ->; auto].
+Qed.
+Lemma interval_l12_range ns l0 l1 l2 : interval_of_time_ns ns = (l0, l1, l2) -> 0 <= l1 <= 31 /\ 0 <= l2 <= 31.
+Proof.
+  unfold interval_of_time_ns. intros E. assert (l1 = k_l1 (k_now ns) /\ l2 = k_l2 (k_now ns)) as [-> ->] by (split; congruence).
+  unfold k_l1, k_l2. lia.
+Qed.
+Lemma store_key_same cache sd e x : cc_find_seed (cc_seeds cache) (gke_rkid e, sd, gke_l0 e) = Some x ->
+  ~ (gke_l1 e > gke_l1 x \/ (gke_l1 e = gke_l1 x /\ gke_l2 e > gke_l2 x)) -> forall c : Crypto, cc_store_key cache sd e = cache.
+Proof.
+  intros Ef Hn _. destruct kernels_meaning as (_ & Hs & _). unfold cc_store_key. cbv zeta. rewrite Ef.
+  destruct (k_cache_store true (gke_l1 e) (gke_l1 x) (gke_l2 e) (gke_l2 x)) eqn:E; [|reflexivity].
+  apply Hs in E. destruct E as [E|E]; [discriminate|contradiction].
+Qed.
+
+Section Inv.
+Context (c : Crypto) (h : hash) (rk : root_key) (rkid : bytes).
+Hypothesis Hhash : rk_hash rk = Ok h.
+Hypothesis Halg : rk_kdf_alg rk = STR_KDF_ALG.
+
+(* the root key is loaded; every entry sits under the key its envelope names; every entry of this root key conforms *)
+Definition cache_inv (cache : ccache) : Prop :=
+  cc_find_root (cc_roots cache) rkid = Some rk /\
+  (forall k sd l0 e, cc_find_seed (cc_seeds cache) (k, sd, l0) = Some e -> gke_rkid e = k /\ gke_l0 e = l0) /\
+  (forall sd l0 e, cc_find_seed (cc_seeds cache) (rkid, sd, l0) = Some e -> env_ok c h rk rkid sd l0 e).
+
+Lemma cache_inv_ok cache sd l0 : cache_inv cache -> cache_ok c h rk rkid sd l0 cache.
+Proof. intros (Hr & _ & He). split; [exact Hr|apply He]. Qed.
+
+Lemma set_seed_inv cache k sd l0 e : cache_inv cache -> gke_rkid e = k -> gke_l0 e = l0 ->
+  (k = rkid -> env_ok c h rk rkid sd l0 e) -> cache_inv (cc_set_seed cache (k, sd, l0) e).
+Proof.
+  intros (Hr & Hk & He) Ek El Hok. unfold cache_inv, cc_set_seed. cbn [cc_roots cc_seeds cc_find_seed].
+  split; [exact Hr|]. split.
+  - intros k' sd' l0' e'. destruct (ckey_eqb (k, sd, l0) (k', sd', l0')) eqn:E.
+    + apply ckey_eqb_eq in E. injection E as <- <- <-. intros H. injection H as <-. auto.
+    + apply Hk.
+  - intros sd' l0' e'. destruct (ckey_eqb (k, sd, l0) (rkid, sd', l0')) eqn:E.
+    + apply ckey_eqb_eq in E. injection E as -> <- <-. intros H. injection H as <-. auto.
+    + apply He.
+Qed.
+
+Lemma get_key_inv cache sd k l0 l1 l2 r cache' : cache_inv cache -> cc_get_key c cache sd k l0 l1 l2 = Ok (r, cache') ->
+  cache_inv cache' /\
+  forall e, r = Some e -> cc_find_seed (cc_seeds cache') (k, sd, l0) = Some e /\ gke_rkid e = k /\ gke_l0 e = l0 /\
+    (l1 <= 31 -> l2 <= 31 -> covers (env_of e) l1 l2).
+Proof.
+  intros Hinv. pose proof Hinv as (Hr & Hk & He). destruct kernels_meaning as (Hc & _ & _).
+  unfold cc_get_key. destruct (k_cache_l0_guard l0) eqn:G; [discriminate|]. cbv zeta.
+  change k_cache_root_overwrites with true. cbv iota.
+  assert (Hmiss :
+    match cc_find_root (cc_roots cache) k with
+    | Some rk0 =>
+      let* hash_name := KDFParameters_unpack (rk_kdf_params rk0) in
+      let* h0 := hash_algorithm hash_name in
+      let* l1_seed := compute_l1_key c h0 sd k l0 (rk_key rk0) in
+      Ok (Some {| gke_version := rk_version rk0; gke_flags := k_root_env_flags; gke_l0 := l0;
+                  gke_l1 := k_root_env_l1; gke_l2 := k_root_env_l2; gke_rkid := k;
+                  gke_kdf_alg := rk_kdf_alg rk0; gke_kdf_params := rk_kdf_params rk0;
+                  gke_secret_alg := rk_secret_alg rk0;
+                  gke_secret_params := match rk_secret_params rk0 with Some (x :: r) => x :: r | _ => [] end;
+                  gke_priv_len := rk_priv_len rk0; gke_pub_len := rk_pub_len rk0;
+                  gke_domain := []; gke_forest := []; gke_l1_key := l1_seed; gke_l2_key := [] |},
+          cc_set_seed cache (k, sd, l0)
+               {| gke_version := rk_version rk0; gke_flags := k_root_env_flags; gke_l0 := l0;
+                  gke_l1 := k_root_env_l1; gke_l2 := k_root_env_l2; gke_rkid := k;
+                  gke_kdf_alg := rk_kdf_alg rk0; gke_kdf_params := rk_kdf_params rk0;
+                  gke_secret_alg := rk_secret_alg rk0;
+                  gke_secret_params := match rk_secret_params rk0 with Some (x :: r) => x :: r | _ => [] end;
+                  gke_priv_len := rk_priv_len rk0; gke_pub_len := rk_pub_len rk0;
+                  gke_domain := []; gke_forest := []; gke_l1_key := l1_seed; gke_l2_key := [] |})
+    | None => Ok (None, cache)
+    end = Ok (r, cache') ->
+    cache_inv cache' /\
+    forall e, r = Some e -> cc_find_seed (cc_seeds cache') (k, sd, l0) = Some e /\ gke_rkid e = k /\ gke_l0 e = l0 /\
+      (l1 <= 31 -> l2 <= 31 -> covers (env_of e) l1 l2)).
+  { destruct (cc_find_root (cc_roots cache) k) as [rk0|] eqn:Er0.
+    2: { intros H. apply Ok_inj in H. injection H as <- <-. split; [exact Hinv|discriminate]. }
+    destruct (KDFParameters_unpack (rk_kdf_params rk0)) as [hn|] eqn:Eh; [|discriminate]. cbn [bind].
+    destruct (hash_algorithm hn) as [h0|] eqn:Eh0; [|discriminate]. cbn [bind].
+    destruct (compute_l1_key c h0 sd k l0 (rk_key rk0)) as [top|] eqn:Et; [|discriminate]. cbn [bind].
+    intros H. apply Ok_inj in H. injection H as <- <-. split.
+    - apply set_seed_inv; [exact Hinv|reflexivity|reflexivity|]. intros ->. rewrite Hr in Er0. injection Er0 as <-.
+      assert (h0 = h) by (unfold rk_hash in Hhash; rewrite Eh in Hhash; cbn [bind] in Hhash; congruence). subst h0.
+      constructor; cbn [gke_l0 gke_rkid gke_kdf_alg gke_kdf_params gke_flags gke_domain gke_forest gke_secret_alg gke_priv_len]; try reflexivity; try assumption.
+      unfold root_top. rewrite Et. apply (root_env_conforming (kdfK c h rkid l0) (Ok top) (Ok [])).
+    - intros e E. injection E as <-. unfold cc_set_seed. cbn [cc_seeds cc_find_seed gke_rkid gke_l0]. rewrite ckey_eqb_refl.
+      split; [reflexivity|]. split; [reflexivity|]. split; [reflexivity|].
+      intros H1 H2. unfold covers. cbn [env_of e_l1 e_l2 gke_l1 gke_l2]. unfold k_root_env_l1, k_root_env_l2. lia. }
+  destruct (cc_find_seed (cc_seeds cache) (k, sd, l0)) as [e0|] eqn:Es.
+  - destruct (k_cache_covers true (gke_l1 e0) l1 (gke_l2 e0) l2) eqn:Ecov; [|exact Hmiss].
+    intros H. apply Ok_inj in H. injection H as <- <-. split; [exact Hinv|]. intros e E. injection E as <-.
+    destruct (Hk _ _ _ _ Es) as [E1 E2]. split; [exact Es|]. split; [exact E1|]. split; [exact E2|].
+    intros _ _. apply Hc in Ecov. unfold covers. cbn [env_of e_l1 e_l2]. tauto.
+  - destruct (k_cache_covers false 0 l1 0 l2) eqn:Ecov; [apply Hc in Ecov; destruct Ecov; discriminate|exact Hmiss].
+Qed.
+
+(* ncrypt_unprotect_secret (offline) keeps the invariant, whatever the bytes *)
+Lemma unprotect_keeps_inv cache bs : cache_inv cache -> cache_inv (snd (unprotect_offline c cache bs)).
+Proof.
+  intros Hinv. unfold unprotect_offline. destruct (blob_unpack bs) as [b|]; [|exact Hinv].
+  destruct (get_target_sd (b_sid b)) as [sd|]; [|exact Hinv].
+  destruct (cc_get_key c cache sd _ _ _ _) as [[[e|] c1]|] eqn:Eg; [| |exact Hinv]; destruct (get_key_inv _ _ _ _ _ _ _ _ Hinv Eg) as [Hc1 Hf]; cbn [snd]; [|exact Hc1].
+  destruct (Hf e eq_refl) as (Ef & Ek & El & _). destruct (gke_is_public_key e); [exact Hc1|].
+  rewrite (store_key_same c1 sd e e); [exact Hc1| |lia|exact c]. rewrite Ek, El. exact Ef.
+Qed.
+
+(* ncrypt_protect_secret (offline) keeps the invariant, whatever the arguments *)
+Lemma protect_keeps_inv cache r1 r2 r3 data sid rid time_ns : cache_inv cache ->
+  cache_inv (snd (protect_offline c cache r1 r2 r3 data sid rid time_ns)).
+Proof.
+  intros Hinv. unfold protect_offline. destruct (get_target_sd sid) as [sd|]; [|exact Hinv].
+  unfold protection_gke_from_cache. destruct rid as [rid|]; [|exact Hinv].
+  destruct (interval_of_time_ns time_ns) as [[l0 l1] l2] eqn:Ei. destruct (interval_l12_range _ _ _ _ Ei) as [H1 H2].
+  destruct (cc_get_key c cache sd rid l0 l1 l2) as [[[e|] c1]|] eqn:Eg; cbn [bind]; [| |exact Hinv];
+    destruct (get_key_inv _ _ _ _ _ _ _ _ Hinv Eg) as [Hc1 Hf]; [|exact Hc1].
+  destruct (Hf e eq_refl) as (Ef & Ek & El & Hcov). specialize (Hcov ltac:(lia) ltac:(lia)).
+  destruct (KDFParameters_unpack (gke_kdf_params e)) as [hn|]; [|exact Hinv]. cbn [bind].
+  destruct (hash_algorithm hn) as [h0|]; [|exact Hinv]. cbn [bind].
+  destruct (compute_l2_key c h0 l1 l2 e) as [l2k|]; [|exact Hinv]. cbn [bind snd].
+  match goal with |- cache_inv (if ?b then _ else _) => destruct b end; [exact Hc1|].
+  rewrite (store_key_same c1 sd _ e); [exact Hc1|cbn [gke_rkid gke_l0]; exact Ef| |exact c].
+  cbn [gke_l1 gke_l2]. unfold covers in Hcov. cbn [env_of e_l1 e_l2] in Hcov. lia.
+Qed.
+End Inv.
